@@ -50,6 +50,11 @@ CLAIMED['C04'] = ('other', 'bounded symbolic execution of one inductive step of 
 CLAIMED['C02'] = ('other', 'partial scope (DESIGN.md C02): bounded symbolic execution decides (1) rng threading - with the library generator replaced by a failing object and the global numpy/python generators fingerprinted, every path of every stochastic built-in uses only the generator it was given, composites forward the same generator object, GridWorld hands its own generator to reset/transition/observation; (2) order independence of set-valued reset parameters as a 2-safety property over symbolic permutations and symbolic draws; (3) determinism given the draws with the debug flag flipped. Cross-process equality and interleaving of live environments are only sampled by concrete side checks, which the level does not rest on',
                   'trusts z3, the proxy layer, SymRng/ReplayRng/OrderedSetStub; numpy default_rng(seed) itself is trusted to be deterministic', 'DESIGN.md §5 C02')
 
+CLAIMED['C15'] = ('other', 'mixed: (a) the per-object converters of the three encodings are executed on an object with symbolic status and colour indices (type forked) and z3 decides lower <= value <= upper of the declared per-object space for all of them; (b) whole-state / whole-observation conversion, concretised at the numpy boundary, for states with a distinguished cell over the alphabet of the space, every pose and held item: shape, dtype kind, Space.contains and the gym Box/Dict space built by outer_space_to_gym_space; (c) the normalised agent pose for every position of shapes 2x2..6x6',
+                  'trusts z3, the proxy layer, numpy, gym 0.26 Box.contains; whole grids beyond one distinguished cell rest on the cell-wise lemma of C16; type subsets beyond the listed family are outside', 'DESIGN.md §5 C15')
+CLAIMED['C16'] = ('other', 'mixed, same machinery as C15: on pairs of objects with symbolic status/colour z3 decides that encodings are equal iff the objects are, that the default encoding is the index triple and that the no-overlap and compact channels use strictly ordered (hence disjoint) value ranges; the compact maps are checked to be exactly 0..n-1; real objects: ==/hash consistent with the encoding; cell-wise lemma (entry (y,x) is the encoding of the object in that cell for every position and every other content; agent marker exactly at the agent cell); changing one component of a state changes its representation, equal states have equal representations and hashes',
+                  'trusts z3, the proxy layer, numpy; Box content is not part of object equality by design', 'DESIGN.md §5 C16')
+
 NOT_APPLICABLE = {
     'C19': 'floating-point trigonometric ray kernel (sin/cos/arctan2 via libm/numpy, round-to-nearest of accumulated float steps): no SMT theory for the transcendental part, the only FP-expressible lemma timed out (300 s) on z3 and cvc5, and the remaining inputs form a small finite domain a solver would merely enumerate; see DESIGN.md §5 C19',
 }
